@@ -29,11 +29,16 @@ fn snake(camel: &str) -> String {
     out
 }
 
+/// Coq string literal (explicit scope key: the case files do not open string_scope).
+fn qs(x: &str) -> String {
+    format!("\"{x}\"%string")
+}
+
 macro_rules! consts_int {
-    ($($n:ident),* $(,)?) => { $( emit("const/int", &format!("ConstVal \"{}\" {}", stringify!($n), z(k::$n as u128))); )* };
+    ($($n:ident),* $(,)?) => { $( emit("const/int", &format!("ConstVal {} {}", qs(stringify!($n)), z(k::$n as u128))); )* };
 }
 macro_rules! consts_bool {
-    ($($n:ident),* $(,)?) => { $( emit("const/bool", &format!("ConstBool \"{}\" {}", stringify!($n), b(k::$n))); )* };
+    ($($n:ident),* $(,)?) => { $( emit("const/bool", &format!("ConstBool {} {}", qs(stringify!($n)), b(k::$n))); )* };
 }
 
 fn emit_consts() {
@@ -109,24 +114,24 @@ fn one_init(rng: &mut Rng, idx: usize) {
         let by_key = m.get_config_by_key(key).copied();
         let by_name = m.get_config(&name).ok().copied();
         if by_key != by_name {
-            emit("cfg/by-name-mismatch", &format!("CfgNameMismatch {p} \"{name}\""));
+            emit("cfg/by-name-mismatch", &format!("CfgNameMismatch {p} {}", qs(&name)));
         }
-        emit(if same { "cfg/pure" } else { "cfg/impure" }, &format!("CfgDefault {p} \"{name}\" {}", oz(by_key)));
+        emit(if same { "cfg/pure" } else { "cfg/impure" }, &format!("CfgDefault {p} {} {}", qs(&name), oz(by_key)));
     }
     for d in 0..=u8::MAX {
         let Ok(f) = MarketConfigFlag::try_from(d) else { continue };
         let name = f.to_string();
         let v = m.get_config_flag_by_key(f);
         if m.get_config_flag(&name).ok() != Some(v) {
-            emit("flag/by-name-mismatch", &format!("CfgNameMismatch {p} \"{name}\""));
+            emit("flag/by-name-mismatch", &format!("CfgNameMismatch {p} {}", qs(&name)));
         }
-        emit(if same { "flag/pure" } else { "flag/impure" }, &format!("FlagDefault {p} \"{name}\" {}", b(v)));
+        emit(if same { "flag/pure" } else { "flag/impure" }, &format!("FlagDefault {p} {} {}", qs(&name), b(v)));
     }
     for d in 0..=u8::MAX {
         let Ok(kind) = PoolKind::try_from(d) else { continue };
         let name = snake(&format!("{kind:?}"));
         match m.pool(kind) {
-            None => emit("pool/missing", &format!("PoolDefault {p} \"{name}\" false 0 0 0 0 0")),
+            None => emit("pool/missing", &format!("PoolDefault {p} {} false 0 0 0 0 0", qs(&name))),
             Some(pool) => {
                 let raw = bytemuck::bytes_of(&pool);
                 let byte = raw[0];
@@ -138,7 +143,7 @@ fn one_init(rng: &mut Rng, idx: usize) {
                 let (bl, bs) = (q.long_amount().expect("long") - pool.long_amount().expect("long"), q.short_amount().expect("short") - pool.short_amount().expect("short"));
                 emit(
                     if same { "pool/pure" } else { "pool/impure" },
-                    &format!("PoolDefault {p} \"{name}\" true {} {} {} {} {}", z(byte), z(l), z(s), z(bl), z(bs)),
+                    &format!("PoolDefault {p} {} true {} {} {} {} {}", qs(&name), z(byte), z(l), z(s), z(bl), z(bs)),
                 );
             }
         }
